@@ -9,12 +9,43 @@ FAMS = {"A": ["T1", "T2", "T3"], "B": ["D1", "D2", "D3", "T1"], "C": ["M1", "M2"
 
 
 def run(ctx, args):
+    if ctx.pid == "C03":
+        _run_proof(ctx)
     _run_locks(ctx, args)
     if ctx.pid == "C03" and ctx.tier == "thorough":
         # system level: in a real multi-node network no signer answers for two different transactions that
         # spend the same slot (condition [R5] of spec/Net/Cosi.tla), judged on a recorded run
         import cosinet
         cosinet.run_cosinet(ctx, with_model=False)
+
+
+def _run_proof(ctx):
+    """Unbounded part of C03 (spec/Locks/LocksProof.tla): TLAPS proves, for arbitrary sets of transactions and
+    outputs and arbitrary input sets, that a stored transaction holds all its inputs, final is a subset of body
+    (hence no two finalized transactions share an input) and that a finalized holder is never displaced.
+    MC_LocksProof is the same module with small constants, checked by TLC (plus three non-vacuity witnesses)."""
+    import re, shutil, subprocess
+    d = ctx.specdir("Locks")
+    if shutil.which("tlapm"):
+        pr = subprocess.run(["timeout", "300", "tlapm", "--threads", "8", "LocksProof.tla"], cwd=d,
+                            stdout=subprocess.PIPE, stderr=subprocess.STDOUT, text=True)
+        m = re.search(r"All (\d+) obligations proved", pr.stdout)
+        ctx.checker_cmds.append("tlapm --threads 8 LocksProof.tla")
+        if m:
+            ctx.cov["tlaps_obligations_proved"] = int(m.group(1))
+            ctx.log("TLAPS: LocksProof.tla, %s obligations proved (unbounded Tx, Out, Ins: Spec => []Inv, "
+                    "[]NoDoubleSpend, [][FinalKept]_vars, [][StepOK]_vars)" % m.group(1))
+        else:
+            raise Infra("tlapm did not prove LocksProof.tla:\n" + pr.stdout[-1500:])
+    else:
+        ctx.notes.append("tlapm not found: the unbounded proof of the reservation invariants "
+                         "(spec/Locks/LocksProof.tla) was not re-proved")
+    # the same module instantiated with small constants: TLC checks the proved invariants and action properties
+    for f in ("A", "B"):
+        ctx.tlc_mc(d, "MC_LocksProof.tla", "MC_LocksProof_%s.cfg" % f, workers=4, timeout=300, count=False)
+    for w in ("NoTakeover", "NoFinalConflict", "NoRefusal"):
+        ctx.tlc_mc(d, "MC_LocksProof.tla", "MC_LocksProof_wit_%s.cfg" % w, workers=4, timeout=300, count=False,
+                   expect_violation=w)
 
 
 def _run_locks(ctx, args):
